@@ -1,3 +1,4 @@
+import RpycModel.Gen.Sendq
 /-
 L8 — the send side of a connection shared by several threads (C12).
 
@@ -27,7 +28,7 @@ dropped, the `finally` releases the lock (pc `releaseX`) and the exception leave
 re-entered, so whatever other threads queued meanwhile stays queued.
 
 Ghost fields (never read by `step`): `out`, `lost`, `stub`, `appended`, `started`, `prog`, `holder`, `root`.
-No `import`: this file is compiled into the driver.
+Imports only generated constants: this file is compiled into the driver.
 -/
 namespace Rpyc.Conc.SendQ
 
@@ -39,12 +40,20 @@ writes (frame larger than `MAX_IO_CHUNK`) or one -/
 structure Msg where
   id : Nat
   big : Bool
+  kind : Nat := 1        -- the message type `_send` is called with (`MSG_REQUEST` = 1, `MSG_REPLY`, `MSG_EXCEPTION`)
   deriving DecidableEq, Repr
 
 /-- queue element: the message together with the (ghost) logical thread that appended it -/
 abbrev Item := Tid × Msg
 /-- what one `stream.write` call puts on the wire: the `k`-th piece of an item's frame -/
 abbrev Piece := Item × Nat
+
+/-- does `_send` put a datum of this kind at the BACK of the queue?  Regenerated from the live code
+(`Gen/Sendq.lean`: measured with the lock busy and two data queued); a kind that was not measured counts as back -/
+def enqueueAtBack (k : Nat) : Bool := !(Rpyc.Gen.Sendq.enqueuedAtBack.any (fun p => p.1 == k && !p.2))
+
+/-- `self._send_queue.append(data)` as the live code performs it for this kind of message -/
+def enqueue (q : List Item) (x : Item) : List Item := if enqueueAtBack x.2.kind then q ++ [x] else x :: q
 
 /-- number of `stream.write` calls `Channel.send` makes for the item -/
 def nparts (it : Item) : Nat := if it.2.big then 3 else 1
@@ -107,7 +116,7 @@ def step (s : St) (t : Tid) : Option St :=
     | [] => none
     | m :: rest => some (({ s with started := s.started ++ [(t, m)] }.setTodo t rest).setPc t (.append m))
   | .append m =>
-    some ({ s with queue := s.queue ++ [(t, m)], appended := s.appended ++ [(t, m)] }.setPc t .check)
+    some ({ s with queue := enqueue s.queue (t, m), appended := s.appended ++ [(t, m)] }.setPc t .check)
   | .check =>
     match s.queue with
     | [] => some (s.setPc t .idle)
